@@ -658,9 +658,13 @@ RETRY:
 
 func decodeKeyNotFoundStream(s *Stream, start int64) (*structFieldSet, string, error) {
 	buf, cursor, p := s.stat()
+	if c := char(p, cursor); c < 0x20 && c != nul {
+		// the byte that did not match
+		return nil, "", errors.ErrInvalidCharacter(c, "string literal", s.totalOffset())
+	}
 	for {
 		cursor++
-		switch char(p, cursor) {
+		switch c := char(p, cursor); c {
 		case '"':
 			b := buf[start:cursor]
 			key := *(*string)(unsafe.Pointer(&b))
@@ -674,7 +678,18 @@ func decodeKeyNotFoundStream(s *Stream, start int64) (*structFieldSet, string, e
 				if !s.read() {
 					return nil, "", errors.ErrUnexpectedEndOfJSON("string", s.totalOffset())
 				}
-				buf, cursor, p = s.statForRetry()
+				buf, cursor, p = s.stat()
+			}
+			switch char(p, cursor) {
+			case '"', '\\', '/', 'b', 'f', 'n', 'r', 't', 'u':
+			default:
+				s.cursor = cursor
+				return nil, "", errors.ErrInvalidCharacter(char(p, cursor), "string escape code", s.totalOffset())
+			}
+		default:
+			if c < 0x20 {
+				s.cursor = cursor
+				return nil, "", errors.ErrInvalidCharacter(c, "string literal", s.totalOffset())
 			}
 		case nul:
 			s.cursor = cursor
